@@ -1,13 +1,406 @@
-import Brax.Model.C08
-import Brax.Lemmas.Real
+import Brax.Lemmas.C08
+/-!
+# C08 — Joint coordinates and world coordinates round-trip
+
+Model: `Brax/Model/C08.lean` (`Inv.inverse`, `Inv.linkToJointFrame`, `Inv.axisAngleAng`,
+`Inv.w2jLink`, `Inv.fwdLink`, `Inv.stepTail`) on top of the platform (`Kin.forward`,
+`Kin.worldToJoint`).  All theorems are over ℝ and hold for **all** inputs satisfying their
+hypotheses.  They are *per link*: `world_to_joint` reads only `x[parent i]` and `x[i]`, so no
+induction over the forest is involved; the parent's world transform/motion is an arbitrary
+(unit-quaternion) value `parent`, `none` for a root.
+
+Only property theorems and non-vacuity examples live here; helper lemmas are in
+`Brax/Lemmas/C08.lean`.
+-/
 namespace Brax.C08
-open Brax
+open Brax Brax.Inv
+
+/-! ## `world_to_joint` is a per-link map -/
+
+/-- `Kin.worldToJoint` is exactly the map of the per-link body `Inv.w2jLink` over the links, reading
+the parent's transform/motion (the appended identity/zero for a root) and the link's own. -/
 theorem worldToJoint_eq (s : Sys ℝ) (x : List (Tf ℝ)) (xd : List (Motion ℝ)) :
     Kin.worldToJoint s x xd = (List.range s.links.length).filterMap (fun i => do
       let lk ← s.links[i]?
       let xi ← x[i]?
       let xdi ← xd[i]?
       let p := s.parents.getD i (-1)
-      pure (Inv.w2jLink lk (Kin.takeParent x Tf.id p) (Kin.takeParent xd Motion.zero p) xi xdi)) :=
+      pure (w2jLink lk (Kin.takeParent x Tf.id p) (Kin.takeParent xd Motion.zero p) xi xdi)) :=
   rfl
+
+/-! ## `world_to_joint ∘ forward` returns the joint-frame transform -/
+
+/-- for unit quaternions the final `normalize` of `forward` is the identity, and a root is a child
+of the identity frame at rest -/
+theorem fwdLink_eq (parent : Option (Tf ℝ × Motion ℝ)) (lk : LinkP ℝ) (l : Kin.LinkIn ℝ)
+    (hp : Q4.normSq (parentOr parent).1.rot = 1) (hlk : Q4.normSq lk.tf.rot = 1)
+    (hj : Q4.normSq (Kin.jcalc l).1.rot = 1) :
+    fwdLink parent lk l
+      = Kin.world (some (parentOr parent))
+          (Kin.placeJoint lk (Kin.jcalc l).1,
+           ⟨(Kin.jcalc l).2.ang, rotate (Kin.jcalc l).2.vel lk.tf.rot⟩) := by
+  have hw : ∀ jj, Kin.world parent jj = Kin.world (some (parentOr parent)) jj := by
+    intro jj; cases parent with
+    | none => exact world_none_eq jj
+    | some p => rfl
+  simp only [fwdLink, hw]
+  have hu : Q4.normSq (Kin.world (some (parentOr parent))
+      (Kin.placeJoint lk (Kin.jcalc l).1,
+        (⟨(Kin.jcalc l).2.ang, rotate (Kin.jcalc l).2.vel lk.tf.rot⟩ : Motion ℝ))).1.rot = 1 := by
+    simp only [Kin.world, Kin.placeJoint, Tf.doTf]
+    rw [normSq_quatMul, normSq_quatMul, hp, hlk, hj]; ring
+  rw [normalize4_unit _ hu]
+
+/-- **`world_to_joint(forward(q, qd)).j = jcalc(q)`** for every link type and every joint stack:
+the anchor bookkeeping (`j.pos += joint.pos − rotate(joint.pos, j.rot)`, `a_p`, `a_c`, `to_local`)
+cancels exactly.  In general the result is `jcalc(q)` seen from the joint frame `link.joint.rot`. -/
+theorem worldToJoint_forward (parent : Option (Tf ℝ × Motion ℝ)) (lk : LinkP ℝ) (l : Kin.LinkIn ℝ)
+    (hp : Q4.normSq (parentOr parent).1.rot = 1) (hlk : Q4.normSq lk.tf.rot = 1)
+    (hj : Q4.normSq (Kin.jcalc l).1.rot = 1) :
+    (w2jLink lk (parentOr parent).1 (parentOr parent).2
+        (fwdLink parent lk l).1 (fwdLink parent lk l).2).1
+      = conjJoint lk.joint.rot (Kin.jcalc l).1 := by
+  rw [fwdLink_eq parent lk l hp hlk hj]
+  exact w2jLink_placed_j lk (parentOr parent).1 (Kin.jcalc l).1 (parentOr parent).2 _ hp hlk
+
+/-- with the identity joint orientation that `mjcf.load_model` always writes, the joint transform
+is recovered exactly -/
+theorem worldToJoint_forward_id (parent : Option (Tf ℝ × Motion ℝ)) (lk : LinkP ℝ)
+    (l : Kin.LinkIn ℝ) (hp : Q4.normSq (parentOr parent).1.rot = 1)
+    (hlk : Q4.normSq lk.tf.rot = 1) (hjr : lk.joint.rot = ⟨1, 0, 0, 0⟩)
+    (hj : Q4.normSq (Kin.jcalc l).1.rot = 1) :
+    (w2jLink lk (parentOr parent).1 (parentOr parent).2
+        (fwdLink parent lk l).1 (fwdLink parent lk l).2).1 = (Kin.jcalc l).1 := by
+  rw [worldToJoint_forward parent lk l hp hlk hj, hjr, conjJoint_one]
+
+/-- angular part of `jd`: the joint-frame angular velocity turned by the joint rotation
+(`forward` expresses it in the child frame); the parent's own motion cancels -/
+theorem worldToJoint_forward_ang (parent : Option (Tf ℝ × Motion ℝ)) (lk : LinkP ℝ)
+    (l : Kin.LinkIn ℝ) (hp : Q4.normSq (parentOr parent).1.rot = 1)
+    (hlk : Q4.normSq lk.tf.rot = 1) (hj : Q4.normSq (Kin.jcalc l).1.rot = 1) :
+    (w2jLink lk (parentOr parent).1 (parentOr parent).2
+        (fwdLink parent lk l).1 (fwdLink parent lk l).2).2.1.ang
+      = invRotate (rotate (Kin.jcalc l).2.ang (Kin.jcalc l).1.rot) lk.joint.rot := by
+  rw [fwdLink_eq parent lk l hp hlk hj]
+  exact w2jLink_world_ang lk (parentOr parent).1 (Kin.jcalc l).1 (parentOr parent).2 _ hp hlk
+
+/-- linear part of `jd` when the parent frame does not rotate (in particular for every root):
+the joint-frame linear velocity is recovered.  (With a rotating parent the code's
+`xd_wj = Transform(pos = x_p.pos − a_p.pos).do(xd_p)` leaves a term `ω_p × (…)`; that case is part
+of known finding K1.) -/
+theorem worldToJoint_forward_vel_partial (parent : Option (Tf ℝ × Motion ℝ)) (lk : LinkP ℝ)
+    (l : Kin.LinkIn ℝ) (hp : Q4.normSq (parentOr parent).1.rot = 1)
+    (hlk : Q4.normSq lk.tf.rot = 1) (hj : Q4.normSq (Kin.jcalc l).1.rot = 1)
+    (hrest : (parentOr parent).2.ang = ⟨0, 0, 0⟩) :
+    (w2jLink lk (parentOr parent).1 (parentOr parent).2
+        (fwdLink parent lk l).1 (fwdLink parent lk l).2).2.1.vel
+      = invRotate (Kin.jcalc l).2.vel lk.joint.rot := by
+  rw [fwdLink_eq parent lk l hp hlk hj]
+  exact w2jLink_world_vel lk (parentOr parent).1 (Kin.jcalc l).1 (parentOr parent).2 _ _ hp hlk hrest
+
+/-- non-vacuity of the common hypotheses: a rotated, offset link with an anchor away from its origin,
+under a rotated parent that translates and rotates -/
+example : Q4.normSq (parentOr (some exParent)).1.rot = 1 ∧ Q4.normSq exLk.tf.rot = 1
+    ∧ exLk.joint.rot = ⟨1, 0, 0, 0⟩ ∧ exLk.joint.pos ≠ ⟨0, 0, 0⟩
+    ∧ (parentOr (some exParent)).2.ang ≠ ⟨0, 0, 0⟩ := by
+  refine ⟨?_, ?_, rfl, ?_, ?_⟩
+  all_goals simp [parentOr, exParent, exLk, Q4.normSq]
+  all_goals norm_num
+
+/-- … and of a root (`parent = none`): identity frame at rest -/
+example : Q4.normSq (parentOr none).1.rot = 1 ∧ (parentOr none).2.ang = ⟨0, 0, 0⟩ := by
+  simp [parentOr, Tf.id, Motion.zero, V3.zero, Q4.one, Q4.normSq]
+
+/-! ## free links -/
+
+/-- **free links round-trip, positions and velocities**: for a free link (7 coordinates, unit
+quaternion) whose parent frame is at rest — every root — `inverse(world_to_joint(forward(q, qd)))`
+returns `(q, qd)` exactly, including the `inv_rotate` of the angular velocity by the link rotation. -/
+theorem inverse_free (parent : Option (Tf ℝ × Motion ℝ)) (lk : LinkP ℝ)
+    (hp : Q4.normSq (parentOr parent).1.rot = 1) (hrest : (parentOr parent).2.ang = ⟨0, 0, 0⟩)
+    (hlk : Q4.normSq lk.tf.rot = 1) (hjr : lk.joint.rot = ⟨1, 0, 0, 0⟩)
+    (p0 p1 p2 r0 r1 r2 r3 v0 v1 v2 w0 w1 w2 : ℝ) (hr : r0 * r0 + r1 * r1 + r2 * r2 + r3 * r3 = 1)
+    (ds : List (DofP ℝ)) (pidx : Int) :
+    let l : Kin.LinkIn ℝ := ⟨.free, [p0, p1, p2, r0, r1, r2, r3], [v0, v1, v2, w0, w1, w2], ds⟩
+    let w := w2jLink lk (parentOr parent).1 (parentOr parent).2
+      (fwdLink parent lk l).1 (fwdLink parent lk l).2
+    inverseLink .free w.1 w.2.1 pidx (ds.map (·.motion))
+      = some ([p0, p1, p2, r0, r1, r2, r3], [v0, v1, v2, w0, w1, w2]) := by
+  intro l w
+  have hj : Q4.normSq (Kin.jcalc l).1.rot = 1 := by simpa [Q4.normSq, Kin.jcalc, l] using hr
+  have h1 : w.1 = ⟨⟨p0, p1, p2⟩, ⟨r0, r1, r2, r3⟩⟩ :=
+    worldToJoint_forward_id parent lk l hp hlk hjr hj
+  have h2 : w.2.1.ang = rotate ⟨w0, w1, w2⟩ ⟨r0, r1, r2, r3⟩ := by
+    have := worldToJoint_forward_ang parent lk l hp hlk hj
+    rw [hjr, invRotate_one] at this; exact this
+  have h3 : w.2.1.vel = ⟨v0, v1, v2⟩ := by
+    have := worldToJoint_forward_vel_partial parent lk l hp hlk hj hrest
+    rw [hjr, invRotate_one] at this; exact this
+  have h4 : invRotate (rotate (⟨w0, w1, w2⟩ : V3 ℝ) ⟨r0, r1, r2, r3⟩) ⟨r0, r1, r2, r3⟩ = ⟨w0, w1, w2⟩ :=
+    invRotate_rotate_unit _ _ (by simpa [Q4.normSq] using hr)
+  simp only [inverseLink, free, h1, h2, h3, h4]
+
+/-! ## single hinges -/
+
+/-- **a link attached by a single hinge round-trips, position and velocity**: unit axis, any anchor
+(`link.joint.pos`), any link offset/orientation, any (unit) parent frame moving in any way, root
+or child, joint angle in `(−π, π]`.  What `axis_angle_ang` computes here: the frame is
+`(a, b, a×b)` with `(b, a×b) = orthogonals(a)`; the line of nodes is `cos q·b + sin q·a×b`, so
+`psi = atan2(sin q, cos q) = q`; the velocity is `a · (a·qd)`. -/
+theorem inverse_one_hinge (parent : Option (Tf ℝ × Motion ℝ)) (lk : LinkP ℝ)
+    (hp : Q4.normSq (parentOr parent).1.rot = 1)
+    (hlk : Q4.normSq lk.tf.rot = 1) (hjr : lk.joint.rot = ⟨1, 0, 0, 0⟩)
+    (d : DofP ℝ) (ha : V3.dot d.motion.ang d.motion.ang = 1) (hv : d.motion.vel = ⟨0, 0, 0⟩)
+    (q qd : ℝ) (h1 : -Real.pi < q) (h2 : q ≤ Real.pi) (pidx : Int) :
+    let l : Kin.LinkIn ℝ := ⟨.one, [q], [qd], [d]⟩
+    let w := w2jLink lk (parentOr parent).1 (parentOr parent).2
+      (fwdLink parent lk l).1 (fwdLink parent lk l).2
+    inverseLink .one w.1 w.2.1 pidx [d.motion] = some ([q], [qd]) := by
+  intro l w
+  have hjc := jcalc_one_hinge d q qd ha hv
+  have hj : Q4.normSq (Kin.jcalc l).1.rot = 1 := by
+    rw [hjc]; exact quatRotAxis_normSq _ q ha
+  have hw1 : w.1 = ⟨⟨0 * q, 0 * q, 0 * q⟩, quatRotAxis d.motion.ang q⟩ := by
+    have := worldToJoint_forward_id parent lk l hp hlk hjr hj
+    rw [hjc] at this; exact this
+  have hw2 : w.2.1.ang = ⟨d.motion.ang.x * qd, d.motion.ang.y * qd, d.motion.ang.z * qd⟩ := by
+    have := worldToJoint_forward_ang parent lk l hp hlk hj
+    rw [hjr, invRotate_one, hjc] at this
+    simp only at this
+    rw [rotate_scale, rotate_axis _ q ha] at this; exact this
+  have hm : d.motion = ⟨d.motion.ang, ⟨0, 0, 0⟩⟩ := by rw [← hv]
+  have hx := xDof_one_hinge d.motion.ang ⟨0 * q, 0 * q, 0 * q⟩ q w.2.1 pidx ha h1 h2
+  simp only [inverseLink, List.length_cons, List.length_nil, LinkType.qdWidth, if_true]
+  rw [hw1, hm, hx, hw2]
+  have hdot : ∀ r : Q4 ℝ, invRotate d.motion.ang r = d.motion.ang →
+      V3.dot d.motion.ang (invRotate ⟨d.motion.ang.x * qd, d.motion.ang.y * qd, d.motion.ang.z * qd⟩ r) = qd := by
+    intro r hr
+    rw [invRotate_scale, hr]
+    simp only [V3.dot] at ha ⊢
+    linear_combination qd * ha
+  congr 3
+  split
+  · exact hdot _ (invRotate_axis _ q ha)
+  · exact hdot _ (invRotate_one _)
+
+/-- non-vacuity: a hinge about the unit axis `(2/3, −1/3, 2/3)` at `q = 1 ∈ (−π, π]` -/
+example : V3.dot (exDof ⟨2 / 3, -1 / 3, 2 / 3⟩ ⟨0, 0, 0⟩).motion.ang (exDof ⟨2 / 3, -1 / 3, 2 / 3⟩ ⟨0, 0, 0⟩).motion.ang = 1
+    ∧ (exDof ⟨2 / 3, -1 / 3, 2 / 3⟩ ⟨0, 0, 0⟩).motion.vel = ⟨0, 0, 0⟩
+    ∧ -Real.pi < (1 : ℝ) ∧ (1 : ℝ) ≤ Real.pi := by
+  refine ⟨by simp [exDof, V3.dot]; norm_num, rfl, ?_, ?_⟩ <;> linarith [Real.two_le_pi]
+
+/-- the instantiated statement: the round trip of that hinge on the example link under the moving
+parent returns `q = 1`, `qd = 2` -/
+example :
+    let l : Kin.LinkIn ℝ := ⟨.one, [1], [2], [exDof ⟨2 / 3, -1 / 3, 2 / 3⟩ ⟨0, 0, 0⟩]⟩
+    let w := w2jLink exLk exParent.1 exParent.2
+      (fwdLink (some exParent) exLk l).1 (fwdLink (some exParent) exLk l).2
+    inverseLink .one w.1 w.2.1 0 [(exDof ⟨2 / 3, -1 / 3, 2 / 3⟩ ⟨0, 0, 0⟩).motion] = some ([1], [2]) :=
+  inverse_one_hinge (some exParent) exLk (by simp [parentOr, exParent, Q4.normSq])
+    (by simp [exLk, Q4.normSq]; norm_num) rfl _ (by simp [exDof, V3.dot]; norm_num) rfl 1 2
+    (by linarith [Real.two_le_pi]) (by linarith [Real.two_le_pi]) 0
+
+/-! ## stacks of slide joints -/
+
+/-- **three stacked slide joints with orthonormal axes** (either handedness): every coordinate is
+recovered, `axis_i · Σ q_k axis_k = q_i`; the velocities are recovered when the parent frame does
+not rotate (every root).  `|q_k| ≤ 2` keeps `normalize(quat_rot_axis(0, q))` at the identity. -/
+theorem inverse_slide_stack3 (parent : Option (Tf ℝ × Motion ℝ)) (lk : LinkP ℝ)
+    (hp : Q4.normSq (parentOr parent).1.rot = 1)
+    (hlk : Q4.normSq lk.tf.rot = 1) (hjr : lk.joint.rot = ⟨1, 0, 0, 0⟩)
+    (d0 d1 d2 : DofP ℝ) (e0 e1 e2 : V3 ℝ)
+    (hd0 : d0.motion = ⟨⟨0, 0, 0⟩, e0⟩) (hd1 : d1.motion = ⟨⟨0, 0, 0⟩, e1⟩)
+    (hd2 : d2.motion = ⟨⟨0, 0, 0⟩, e2⟩)
+    (h00 : V3.dot e0 e0 = 1) (h11 : V3.dot e1 e1 = 1) (h22 : V3.dot e2 e2 = 1)
+    (h01 : V3.dot e0 e1 = 0) (h02 : V3.dot e0 e2 = 0) (h12 : V3.dot e1 e2 = 0)
+    (q0 q1 q2 qd0 qd1 qd2 : ℝ) (hq0 : |q0| ≤ 2) (hq1 : |q1| ≤ 2) (hq2 : |q2| ≤ 2) (pidx : Int) :
+    let l : Kin.LinkIn ℝ := ⟨.three, [q0, q1, q2], [qd0, qd1, qd2], [d0, d1, d2]⟩
+    let w := w2jLink lk (parentOr parent).1 (parentOr parent).2
+      (fwdLink parent lk l).1 (fwdLink parent lk l).2
+    ∃ qd', inverseLink .three w.1 w.2.1 pidx [d0.motion, d1.motion, d2.motion]
+        = some ([q0, q1, q2], qd')
+      ∧ ((parentOr parent).2.ang = ⟨0, 0, 0⟩ → qd' = [qd0, qd1, qd2]) := by
+  intro l w
+  have hjc := jcalc_slides3 d0 d1 d2 e0 e1 e2 q0 q1 q2 qd0 qd1 qd2 hd0 hd1 hd2 hq0 hq1 hq2
+  have hj : Q4.normSq (Kin.jcalc l).1.rot = 1 := by rw [hjc]; simp [Q4.normSq]
+  have hw1 := worldToJoint_forward_id parent lk l hp hlk hjr hj
+  rw [hjc] at hw1
+  have hx := xDof_slides w.1 w.2.1 pidx [d0.motion, d1.motion, d2.motion]
+    (by intro m hm; simp only [List.mem_cons, List.not_mem_nil, or_false] at hm
+        rcases hm with rfl | rfl | rfl <;> simp [hd0, hd1, hd2]) (by simp) (by simp)
+  refine ⟨[V3.dot e0 w.2.1.vel, V3.dot e1 w.2.1.vel, V3.dot e2 w.2.1.vel], ?_, ?_⟩
+  · simp only [inverseLink, List.length_cons, List.length_nil, LinkType.qdWidth, if_true]
+    rw [hx]
+    simp only [List.map_cons, List.map_nil, hd0, hd1, hd2]
+    congr 2
+    show [V3.dot e0 w.1.pos, V3.dot e1 w.1.pos, V3.dot e2 w.1.pos] = [q0, q1, q2]
+    rw [hw1]
+    simp only [V3.dot] at h00 h11 h22 h01 h02 h12 ⊢
+    congr 1
+    · linear_combination q0 * h00 + q1 * h01 + q2 * h02
+    · congr 1
+      · linear_combination q0 * h01 + q1 * h11 + q2 * h12
+      · congr 1
+        linear_combination q0 * h02 + q1 * h12 + q2 * h22
+  · intro hrest
+    have hw3 := worldToJoint_forward_vel_partial parent lk l hp hlk hj hrest
+    rw [hjr, invRotate_one, hjc] at hw3
+    rw [hw3]
+    simp only [V3.dot] at h00 h11 h22 h01 h02 h12 ⊢
+    congr 1
+    · linear_combination qd0 * h00 + qd1 * h01 + qd2 * h02
+    · congr 1
+      · linear_combination qd0 * h01 + qd1 * h11 + qd2 * h12
+      · congr 1
+        linear_combination qd0 * h02 + qd1 * h12 + qd2 * h22
+
+/-- non-vacuity: a left-handed orthonormal triple of slide axes `(x, y, −z)`, coordinates in range -/
+example : V3.dot (⟨1, 0, 0⟩ : V3 ℝ) ⟨1, 0, 0⟩ = 1 ∧ V3.dot (⟨0, 1, 0⟩ : V3 ℝ) ⟨0, 1, 0⟩ = 1
+    ∧ V3.dot (⟨0, 0, -1⟩ : V3 ℝ) ⟨0, 0, -1⟩ = 1 ∧ V3.dot (⟨1, 0, 0⟩ : V3 ℝ) ⟨0, 1, 0⟩ = 0
+    ∧ V3.dot (⟨1, 0, 0⟩ : V3 ℝ) ⟨0, 0, -1⟩ = 0 ∧ V3.dot (⟨0, 1, 0⟩ : V3 ℝ) ⟨0, 0, -1⟩ = 0
+    ∧ V3.dot (V3.cross (⟨1, 0, 0⟩ : V3 ℝ) ⟨0, 1, 0⟩) ⟨0, 0, -1⟩ = -1 ∧ |(-6 / 5 : ℝ)| ≤ 2 := by
+  simp [V3.dot, V3.cross, abs_le]; norm_num
+
+/-- two stacked slide joints with orthonormal axes -/
+theorem inverse_slide_stack2 (parent : Option (Tf ℝ × Motion ℝ)) (lk : LinkP ℝ)
+    (hp : Q4.normSq (parentOr parent).1.rot = 1)
+    (hlk : Q4.normSq lk.tf.rot = 1) (hjr : lk.joint.rot = ⟨1, 0, 0, 0⟩)
+    (d0 d1 : DofP ℝ) (e0 e1 : V3 ℝ)
+    (hd0 : d0.motion = ⟨⟨0, 0, 0⟩, e0⟩) (hd1 : d1.motion = ⟨⟨0, 0, 0⟩, e1⟩)
+    (h00 : V3.dot e0 e0 = 1) (h11 : V3.dot e1 e1 = 1) (h01 : V3.dot e0 e1 = 0)
+    (q0 q1 qd0 qd1 : ℝ) (hq0 : |q0| ≤ 2) (hq1 : |q1| ≤ 2) (pidx : Int) :
+    let l : Kin.LinkIn ℝ := ⟨.two, [q0, q1], [qd0, qd1], [d0, d1]⟩
+    let w := w2jLink lk (parentOr parent).1 (parentOr parent).2
+      (fwdLink parent lk l).1 (fwdLink parent lk l).2
+    ∃ qd', inverseLink .two w.1 w.2.1 pidx [d0.motion, d1.motion] = some ([q0, q1], qd')
+      ∧ ((parentOr parent).2.ang = ⟨0, 0, 0⟩ → qd' = [qd0, qd1]) := by
+  intro l w
+  have hjc := jcalc_slides2 d0 d1 e0 e1 q0 q1 qd0 qd1 hd0 hd1 hq0 hq1
+  have hj : Q4.normSq (Kin.jcalc l).1.rot = 1 := by rw [hjc]; simp [Q4.normSq]
+  have hw1 := worldToJoint_forward_id parent lk l hp hlk hjr hj
+  rw [hjc] at hw1
+  have hx := xDof_slides w.1 w.2.1 pidx [d0.motion, d1.motion]
+    (by intro m hm; simp only [List.mem_cons, List.not_mem_nil, or_false] at hm
+        rcases hm with rfl | rfl <;> simp [hd0, hd1]) (by simp) (by simp)
+  refine ⟨[V3.dot e0 w.2.1.vel, V3.dot e1 w.2.1.vel], ?_, ?_⟩
+  · simp only [inverseLink, List.length_cons, List.length_nil, LinkType.qdWidth, if_true]
+    rw [hx]
+    simp only [List.map_cons, List.map_nil, hd0, hd1]
+    congr 2
+    show [V3.dot e0 w.1.pos, V3.dot e1 w.1.pos] = [q0, q1]
+    rw [hw1]
+    simp only [V3.dot] at h00 h11 h01 ⊢
+    congr 1
+    · linear_combination q0 * h00 + q1 * h01
+    · congr 1
+      linear_combination q0 * h01 + q1 * h11
+  · intro hrest
+    have hw3 := worldToJoint_forward_vel_partial parent lk l hp hlk hj hrest
+    rw [hjr, invRotate_one, hjc] at hw3
+    rw [hw3]
+    simp only [V3.dot] at h00 h11 h01 ⊢
+    congr 1
+    · linear_combination qd0 * h00 + qd1 * h01
+    · congr 1
+      linear_combination qd0 * h01 + qd1 * h11
+
+/-- a single slide joint along a unit axis -/
+theorem inverse_slide_stack1 (parent : Option (Tf ℝ × Motion ℝ)) (lk : LinkP ℝ)
+    (hp : Q4.normSq (parentOr parent).1.rot = 1)
+    (hlk : Q4.normSq lk.tf.rot = 1) (hjr : lk.joint.rot = ⟨1, 0, 0, 0⟩)
+    (d0 : DofP ℝ) (e0 : V3 ℝ) (hd0 : d0.motion = ⟨⟨0, 0, 0⟩, e0⟩) (h00 : V3.dot e0 e0 = 1)
+    (q0 qd0 : ℝ) (hq0 : |q0| ≤ 2) (pidx : Int) :
+    let l : Kin.LinkIn ℝ := ⟨.one, [q0], [qd0], [d0]⟩
+    let w := w2jLink lk (parentOr parent).1 (parentOr parent).2
+      (fwdLink parent lk l).1 (fwdLink parent lk l).2
+    ∃ qd', inverseLink .one w.1 w.2.1 pidx [d0.motion] = some ([q0], qd')
+      ∧ ((parentOr parent).2.ang = ⟨0, 0, 0⟩ → qd' = [qd0]) := by
+  intro l w
+  have hjc := jcalc_slides1 d0 e0 q0 qd0 hd0 hq0
+  have hj : Q4.normSq (Kin.jcalc l).1.rot = 1 := by rw [hjc]; simp [Q4.normSq]
+  have hw1 := worldToJoint_forward_id parent lk l hp hlk hjr hj
+  rw [hjc] at hw1
+  have hx := xDof_slides w.1 w.2.1 pidx [d0.motion]
+    (by intro m hm; simp only [List.mem_cons, List.not_mem_nil, or_false] at hm
+        rcases hm with rfl; simp [hd0]) (by simp) (by simp)
+  refine ⟨[V3.dot e0 w.2.1.vel], ?_, ?_⟩
+  · simp only [inverseLink, List.length_cons, List.length_nil, LinkType.qdWidth, if_true]
+    rw [hx]
+    simp only [List.map_cons, List.map_nil, hd0]
+    congr 2
+    show [V3.dot e0 w.1.pos] = [q0]
+    rw [hw1]
+    simp only [V3.dot] at h00 ⊢
+    congr 1
+    linear_combination q0 * h00
+  · intro hrest
+    have hw3 := worldToJoint_forward_vel_partial parent lk l hp hlk hj hrest
+    rw [hjr, invRotate_one, hjc] at hw3
+    rw [hw3]
+    simp only [V3.dot] at h00 ⊢
+    congr 1
+    linear_combination qd0 * h00
+
+/-! ## what the pipelines report -/
+
+/-- **`q, qd` reported by `spring.pipeline.step` / `positional.pipeline.step` are the inverse image of
+the `x, xd` they report**: the last lines of both `step` functions are
+`j, jd, a_p, a_c = world_to_joint(sys, x, xd); q, qd = inverse(sys, j, jd)`.  Definitional in the
+model (`Inv.stepTail`); the correspondence leg (c) is what gives it content: the harness feeds the
+real post-step `x, xd` to `Inv.stepTail` and compares with the real reported `q, qd`. -/
+theorem step_q_is_inverse (s : Sys ℝ) (x : List (Tf ℝ)) (xd : List (Motion ℝ)) (r : Reported ℝ)
+    (h : stepTail s x xd = some r) :
+    inverse s r.j r.jd = some (r.q, r.qd)
+      ∧ r.j = (Kin.worldToJoint s x xd).map (·.1)
+      ∧ r.jd = (Kin.worldToJoint s x xd).map (·.2.1)
+      ∧ r.a_p = (Kin.worldToJoint s x xd).map (·.2.2.1)
+      ∧ r.a_c = (Kin.worldToJoint s x xd).map (·.2.2.2) := by
+  simp only [stepTail, Option.map_eq_some_iff] at h
+  obtain ⟨qq, hq, rfl⟩ := h
+  exact ⟨hq, rfl, rfl, rfl, rfl⟩
+
+/-! ## known finding K2: a slide placed after a hinge in one stack -/
+
+/-- In a stack (hinge about `a`, then slide along `e ⟂ a`) `forward` turns the slide axis with the
+hinge, but `inverse` projects the joint-frame position on the *unturned* axis `e`: the slide
+coordinate comes back as `q₁·cos q₀`, not `q₁`.  (Documented upstream limitation, the `TODO` in
+`kinematics.forward`; outside the property's quantifier.) -/
+theorem inverse_hinge_then_slide_coord (parent : Option (Tf ℝ × Motion ℝ)) (lk : LinkP ℝ)
+    (hp : Q4.normSq (parentOr parent).1.rot = 1)
+    (hlk : Q4.normSq lk.tf.rot = 1) (hjr : lk.joint.rot = ⟨1, 0, 0, 0⟩)
+    (dh ds : DofP ℝ) (a e : V3 ℝ) (hh : dh.motion = ⟨a, ⟨0, 0, 0⟩⟩) (hs : ds.motion = ⟨⟨0, 0, 0⟩, e⟩)
+    (ha : V3.dot a a = 1) (he : V3.dot e e = 1) (hae : V3.dot a e = 0)
+    (q0 q1 qd0 qd1 : ℝ) (hq1 : |q1| ≤ 2) (pidx : Int) (qq qd' : List ℝ) :
+    let l : Kin.LinkIn ℝ := ⟨.two, [q0, q1], [qd0, qd1], [dh, ds]⟩
+    let w := w2jLink lk (parentOr parent).1 (parentOr parent).2
+      (fwdLink parent lk l).1 (fwdLink parent lk l).2
+    inverseLink .two w.1 w.2.1 pidx [dh.motion, ds.motion] = some (qq, qd') →
+      qq[1]? = some (q1 * Real.cos q0) := by
+  intro l w hinv
+  have hjc := jcalc_hinge_slide dh ds a e q0 q1 qd0 qd1 hh hs ha hq1
+  have hj : Q4.normSq (Kin.jcalc l).1.rot = 1 := by rw [hjc]; exact quatRotAxis_normSq a q0 ha
+  have hw1 : w.1 = _ := worldToJoint_forward_id parent lk l hp hlk hjr hj
+  rw [hjc] at hw1
+  simp only [inverseLink, List.length_cons, List.length_nil, LinkType.qdWidth, if_true, hh, hs] at hinv
+  rw [xDof_hinge_slide_q1 w.1 w.2.1 pidx a e qq qd' hinv, hw1]
+  simp only
+  rw [rotate_scale, rotate_perp a e q0 ha hae]
+  congr 1
+  simp only [V3.dot, V3.cross] at he ⊢
+  linear_combination (q1 * Real.cos q0) * he
+
+/-- witness: hinge about `z` at `q₀ = π/2`, slide along `x` at `q₁ = 1` comes back as `0` -/
+theorem inverse_hinge_then_slide_ne (lk : LinkP ℝ) (hlk : Q4.normSq lk.tf.rot = 1)
+    (hjr : lk.joint.rot = ⟨1, 0, 0, 0⟩) (dh ds : DofP ℝ)
+    (hh : dh.motion = ⟨⟨0, 0, 1⟩, ⟨0, 0, 0⟩⟩) (hs : ds.motion = ⟨⟨0, 0, 0⟩, ⟨1, 0, 0⟩⟩)
+    (qd0 qd1 : ℝ) (qd' : List ℝ) :
+    let l : Kin.LinkIn ℝ := ⟨.two, [Real.pi / 2, 1], [qd0, qd1], [dh, ds]⟩
+    let w := w2jLink lk Tf.id Motion.zero (fwdLink none lk l).1 (fwdLink none lk l).2
+    inverseLink .two w.1 w.2.1 (-1) [dh.motion, ds.motion] ≠ some ([Real.pi / 2, 1], qd') := by
+  intro l w hinv
+  have := inverse_hinge_then_slide_coord none lk (by simp [parentOr, Tf.id, Q4.one, Q4.normSq]) hlk hjr
+    dh ds ⟨0, 0, 1⟩ ⟨1, 0, 0⟩ hh hs (by simp [V3.dot]) (by simp [V3.dot]) (by simp [V3.dot])
+    (Real.pi / 2) 1 qd0 qd1 (by norm_num) (-1) _ qd' hinv
+  simp [Real.cos_pi_div_two] at this
+
 end Brax.C08
